@@ -74,10 +74,12 @@ FLOORS = {
     'reuse:3+distinct-tuples': (0.6, 'reuse:case'),
     'reuse:wrap:for': (0.12, 'reuse:case'),
     'reuse:wrap:items': (0.15, 'reuse:case'),
-    'doc:ctx': (0.35, 'doc:case'),
-    'doc:ns': (0.35, 'doc:case'),
-    'doc:nonxml-ws': (0.4, 'doc:case'),
-    'doc:backend:lxml': (0.3, 'doc:case'),
+    'doc:ctx': (0.28, 'doc:case'),
+    'doc:ns': (0.28, 'doc:case'),
+    'doc:atom': (0.15, 'doc:case'),
+    'doc:atom:non-string-item': (0.7, 'doc:atom'),
+    'doc:nonxml-ws': (0.3, 'doc:case'),
+    'doc:backend:lxml': (0.25, 'doc:case'),
     'coll:codepoint-equal': (0.12, 'coll:case'),
     'coll:non-ascii-case': (0.6, 'coll:case'),
     'coll:case-variant-needle': (0.12, 'coll:case'),
@@ -1499,8 +1501,40 @@ def _nonempty(mx, pool):
     return mx.pick(['a\xa0b', ' x ', '\u3000', 'q'])
 
 
+#: (XPath expression, F&O string form) of atomic context items of every kind in the pool
+_ATOMS = [('123', '123'), ('0', '0'), ('-45', '-45'), ('4.50', '4.5'), ('0.10', '0.1'), ('100.0', '100'), ('1e0', '1'), ('2.5e0', '2.5'),
+          ('-0e0', '-0'), ("xs:double('NaN')", 'NaN'), ("xs:double('INF')", 'INF'), ("xs:double('-INF')", '-INF'), ('1.0e2', '100'),
+          ("xs:float('1.5')", '1.5'), ("xs:float('-INF')", '-INF'), ('true()', 'true'), ('false()', 'false'),
+          ("xs:date('2000-01-02')", '2000-01-02'), ("xs:time('03:04:05Z')", '03:04:05Z'), ("xs:dayTimeDuration('PT60M')", 'PT1H'),
+          ("xs:hexBinary('0fb7')", '0FB7'), ("xs:gYear('1999')", '1999'), ("xs:integer('0012')", '12'), ("xs:byte('7')", '7')]
+_ATOM_WRAPS = ["xs:untypedAtomic(%s)", "xs:anyURI(%s)", "xs:string(%s)", "%s", "xs:token(%s)"]
+
+
+def _mk_atom_case(mx: _Mix, pool) -> dict:
+    items = []
+    for _ in range(2 + mx.below(4)):
+        if mx.below(3):
+            items.append(list(mx.pick(_ATOMS)))
+        else:
+            z = _mk_str(mx, pool)
+            w = mx.pick(_ATOM_WRAPS)
+            q = _quote(z, '2.0', mx.below(2))
+            if w == "xs:anyURI(%s)" or w == "xs:token(%s)":
+                z = mx.pick(['http://a/b c', 'ab', ' x  y ', 'urn:x'])
+                q = _quote(z, '2.0', 0)
+                if w == "xs:token(%s)":
+                    items.append([w % q, R.normalize_space(z)])
+                    continue
+                z = R.normalize_space(z)          # xs:anyURI collapses whitespace
+            items.append([w % q, z])
+    return {'fam': 'atom', 'ver': mx.pick(['2.0', '3.0', '3.1', '3.1']), 'backend': 'et', 'items': items,
+            'fn': mx.pick(_CTX_FNS), 'form': mx.pick(['bang', 'pred-literal', 'pred-mutual'])}
+
+
 def _mk_doc(mx: _Mix, pool) -> dict:
     backend = mx.pick(['et', 'lxml'])
+    if mx.below(4) == 0:
+        return _mk_atom_case(mx, pool)
     if mx.below(2):
         bs = []
         for _ in range(1 + mx.below(3)):
@@ -1588,10 +1622,53 @@ def _same(obs, want):
     return isinstance(obs, str) and obs == want
 
 
+def _judge_atom_case(case, rec) -> list[Disc]:
+    """zero-argument forms with an ATOMIC context item (sequence predicate, simple map operator): fn:string() is applied
+    to the context item, whatever its type"""
+    discs: list[Disc] = []
+    ver, fn, form, items = case['ver'], case['fn'], case['form'], case['items']
+    if form == 'bang' and ver == '2.0':
+        form = 'pred-mutual'
+    seq = '(' + ', '.join(e for e, _ in items) + ')'
+    vals = [_ctx_ref(fn, z) for _, z in items]
+    if form == 'bang':
+        expr, want = f'{seq} ! {fn}()', vals
+    elif form == 'pred-mutual':
+        expr, want = f'count({seq}[{fn}() = {fn}(string(.))])', len(items)
+    else:
+        w = vals[0]
+        lit = str(w) if fn == 'string-length' else _quote(w, ver, 0)
+        expr, want = f'count({seq}[{fn}() = {lit}])', sum(1 for v in vals if v == w)
+    kinds = sorted({'string' if e[:1] in '\'"' else e.split('(')[0] if '(' in e else 'number' for e, _ in items})
+    classes = ['doc:case', 'doc:atom', 'doc:atom:' + form, 'doc:ver:' + ver, 'doc:backend:et']
+    if any(k not in ('string', 'xs:string') for k in kinds):
+        classes.append('doc:atom:non-string-item')
+    if rec is not None:
+        rec.case(['doc', case], nontrivial=True, sample={'check': 'doc', 'expr': expr, 'case': case}, classes=classes)
+    base = f'C09/doc/atom/{fn}/{form}/v2+'
+    try:
+        res = _doc_eval(ver, expr, _root())
+    except Exception as e:
+        return [Disc(escape_bucket('C09', e) + f'/doc/atom/{fn}/{form}', want, repr(e), expr)]
+    if res[0] == 'error':
+        return [Disc(f'{base}/error/{res[1]}', want, res[2][:150], expr)]
+    obs = res[1]
+    if isinstance(want, list):
+        obs = obs if isinstance(obs, list) else [obs]
+        ok = len(obs) == len(want) and all(_same(o, w) for o, w in zip(obs, want))
+    else:
+        ok = _same(obs, want)
+    if not ok:
+        discs.append(Disc(f'{base}/value', want, obs, expr))
+    return discs
+
+
 def judge_doc_case(case, rec: Recorder | None = None) -> list[Disc]:
     discs: list[Disc] = []
     fam, ver, backend = case['fam'], case['ver'], case['backend']
     vg = 'v1' if ver == '1.0' else 'compat' if ver == '2.0c' else 'v2+'
+    if fam == 'atom':
+        return _judge_atom_case(case, rec)
     root, focus = _build_doc(case, backend)
     lroot, lfocus = (root, focus) if backend == 'lxml' else _build_doc(case, 'lxml')
     classes = ['doc:case', 'doc:' + fam, 'doc:backend:' + backend, 'doc:ver:' + ver]
